@@ -74,8 +74,10 @@ def make_ops(rng, cfg, profile, tier):
             ops.append({'op': 'RANDOM_INIT', 'a': [rng.choice([1.5, 3.0, 0.75])]})
         elif r < 0.865:
             ops.append({'op': 'SHARED_BETAS', 'a': [rng.randrange(4)]})
-        elif r < 0.87:
+        elif r < 0.868:
             ops.append({'op': 'CATALOG_BETA', 'a': [rng.randrange(4)]})
+        elif r < 0.87:
+            ops.append({'op': 'SINGULAR_REPORT', 'a': [rng.randrange(3)]})
         elif r < 0.93:
             ops.append({'op': 'FIX', 'a': [rng.randrange(64), round(rng.uniform(-1, 1), 2),
                                            rng.choice([None, None, 'prefix', 'suffix'])]})
@@ -288,8 +290,16 @@ class Session:
             free = self.free_names()
             chosen = rng.sample(free, rng.randrange(0, len(free)))
             over = {n: round(self.store[n]['value'] + rng.uniform(-0.5, 0.5), 4) for n in chosen}
+            if chosen and a[1] % 3 == 0:
+                over[chosen[0]] = self._feasible(chosen[0], 0.0)     # the value 0 is a value like any other
             want1, _, _ = self.ref_ll_unweighted(self.values(x))
             want2, _, _ = self.ref_ll_unweighted(self.values(over))
+            # the dictionary may also name a FIXED parameter: a fixed parameter keeps the value it was given
+            fixed_names = [n for n, st in self.store.items() if not st['free']]
+            named_fixed = {}
+            if fixed_names and a[1] % 2:
+                named_fixed = {fixed_names[0]: self.store[fixed_names[0]]['value'] + 0.75}
+                ctx.probe('dictionary naming a fixed parameter')
 
             def two(u):
                 for f_ in u.b.formulas.values():
@@ -333,8 +343,8 @@ class Session:
                     self.ctx.probe('derivatives of a part of a bound formula reported by name')
                 v1 = float(u.ll.get_value_c(database=u.db, betas={u.nm(n): v for n, v in x.items()}, aggregation=True,
                                             prepare_ids=False))
-                v2 = float(u.ll.get_value_c(database=u.db, betas={u.nm(n): v for n, v in over.items()}, aggregation=True,
-                                            prepare_ids=False))
+                v2 = float(u.ll.get_value_c(database=u.db, betas={u.nm(n): v for n, v in {**over, **named_fixed}.items()},
+                                            aggregation=True, prepare_ids=False))
                 return v1, v2
             (a1, a2), (b1, b2) = self.both(two)
             rel = 1e-10 if self.tol == 0 else 1e-6
@@ -576,6 +586,44 @@ class Session:
             sim(b1, v1, want1, 'first model again')
             ctx.probe('two models sharing a parameter object')
             ctx.log(kind, order)
+        elif kind == 'SINGULAR_REPORT':
+            # a model that is almost not identified along one direction: the report names the parameters involved in
+            # that direction - those whose component of the eigenvector exceeds the threshold, by name
+            import re
+            import biogeme.biogeme as bio
+            import biogeme.database as db
+            import biogeme.expressions as ex
+            from biogeme.parameters import Parameters
+            first = ['a_first', 'AA_TIME', 'a0'][a[0]]
+            p1, p2, p0 = ex.Beta('sing_b1', 0.0, None, None, 0), ex.Beta('sing_b2', 0.0, None, None, 0), ex.Beta(first, 0.0, None, None, 0)
+            x0 = ex.Variable('x0')
+            d1 = p1 + p2 - x0
+            d2 = p1 - p2
+            d0 = p0 - 1.0
+            ll = -(d1 * d1) - 0.0005 * (d2 * d2) - d0 * d0
+            p = Parameters()
+            p.set_value('save_iterations', False)
+            p.set_value('generate_html', False)
+            p.set_value('generate_pickle', False)
+            p.set_value('identification_threshold', 0.2)
+            p.set_value('optimization_algorithm', 'simple_bounds')
+            B = bio.BIOGEME(db.Database('sing', self.table.copy()), ll, parameters=p)
+            B.modelName = 'sing'
+            r = B.estimate()
+            html = r.get_html(only_robust=False)
+            names_r = list(r.data.betaNames)
+            vec = [float(v) for v in r.data.smallestEigenVector]
+            want = sorted(n_ for n_, v_ in zip(names_r, vec) if abs(v_) > 0.2)
+            if abs(float(r.data.smallestEigenValue)) <= 0.2:
+                sec = html.split('Variables involved', 1)
+                if len(sec) < 2:
+                    ctx.fail('I03.results', 'the report of an almost singular model has no "Variables involved" section')
+                listed = sorted(m_.strip() for m_ in re.findall(r'<td> \*</td><td> ([^<]+)</td>', sec[1].split('</table>')[0]))
+                if listed != want:
+                    ctx.fail('I03.results', f'the report names {listed} as the parameters involved in the singular direction; '
+                                            f'the eigenvector {dict(zip(names_r, vec))} involves {want}')
+                ctx.probe('parameters involved in a singularity named in the report')
+            ctx.log(kind, first, fhex(float(r.data.smallestEigenValue)))
         elif kind == 'CATALOG_BETA':
             # a catalog whose selected alternative is a parameter as such: values given by name reach it like any other
             import biogeme.biogeme as bio
